@@ -68,7 +68,10 @@ Needed(sc, n) == LET g == Grid(sc) IN
                  UNION {(RefTime(sc, n, g[x]) - (IF n.op = "rfn" THEN n.rng ELSE Lookback(sc)))..RefTime(sc, n, g[x]) : x \in 1..Len(g)}
 
 \* ---- plans
-Leaves == IF Q THEN {"m", "moff", "mpin", "rate", "sotoff"} ELSE {"m", "moff", "mneg", "mpin", "mstart", "mend", "rate", "sotoff", "ratepin"}
+\* mre / ratere: selectors with every matcher type, among them a regular expression that matches everything and one that
+\* matches the empty value (matchers that do not narrow the selection are still the select's matchers)
+Leaves == IF Q THEN {"m", "moff", "mpin", "rate", "sotoff", "mre", "ratere"} ELSE {"m", "moff", "mneg", "mpin", "mstart", "mend", "rate", "sotoff", "ratepin", "mre", "ratere"}
+AllKinds == <<Metric("m"), Re("a", ".*", <<"", "x", "y">>), Neq("b", ""), NRe("c", ".+", <<>>), Re("b", ".+", <<"1">>)>>
 \* histq, ts, clamp: functions the engine builds on code paths of their own
 \* selfnarrow: the plan minus a second selector of the same series over a narrower time range (same matchers, same
 \* enclosing function and grouping: the two selects must stay two selects)
@@ -84,6 +87,8 @@ LeafPlan(l) ==
     [] l = "rate"   -> <<RFn("rate", <<Metric("m")>>, 3, 0, "none", 0)>>
     [] l = "sotoff" -> <<RFn("sum_over_time", <<Metric("m")>>, 2, 1, "none", 0)>>
     [] l = "ratepin" -> <<RFn("rate", <<Metric("m")>>, 3, 1, "lit", 6)>>
+    [] l = "mre"     -> <<Sel(AllKinds)>>
+    [] l = "ratere"  -> <<RFn("rate", AllKinds, 3, 0, "none", 0)>>
 Wrap(w, p) ==
   CASE w = "id"    -> p
     [] w = "abs"   -> Over(p, LAMBDA c : Fn("abs", <<c>>))
